@@ -48,6 +48,17 @@ def kernel_params(F, b):
                 node_colls.append((i, inner['p']))
     if vis and node_colls:
         return vis, node_colls[0][0], result
+    if vis and not node_colls and re.search(r'::node::algo::\w+::\w+$', b.get('impl_self_q', '')):
+        # implicit-stack form: the node to expand is a parameter and the recursion is the stack
+        node_ps = []
+        for i in range(2, b['argc'] + 1):
+            t = F.types[b['locals'][i]]
+            inner = F.types[t['a'][0]] if t['k'] == 'ref' and t.get('a') else t
+            if inner['k'] == 'adt' and re.search(r'::node::Node$', inner['p']):
+                node_ps.append(i)
+        recursive = any(t.get('local') and t.get('res') == b['q'] for bi, t in calls_in(b))
+        if len(node_ps) == 1 and recursive:
+            return vis, ('node', node_ps[0]), result
     if not vis and len(node_colls) >= 2 and re.search(r'::node::algo::\w+::\w+$', b.get('impl_self_q', '')):
         # the "visited" collection holds nodes: membership is then decided by Node's Eq/Ord, i.e. by *value* for ordered sets
         sets = [x for x in node_colls if re.search(r'Set$', x[1])]
@@ -114,10 +125,18 @@ def analyse(F, b, params):
         K.missing.append('VISITED: the visited collection %s holds nodes, not keys (set membership of nodes follows their ordering by *value*, so two nodes with equal values count as one)' %
                          F.types[b['locals'][-vis]]['s'])
         return K
+    K.node_param = None
+    if isinstance(front, tuple):
+        K.node_param = front[1]
+        front = None
     K.vis, K.front, K.result = vis, front, result
-    fin, fid = _ref_mut_to(F, b['locals'][front])
-    K.front_adt = fin['p']
-    K.front_reverse = F.ty_has_adt(fid, r'^std::cmp::Reverse$')
+    if front is not None:
+        fin, fid = _ref_mut_to(F, b['locals'][front])
+        K.front_adt = fin['p']
+        K.front_reverse = F.ty_has_adt(fid, r'^std::cmp::Reverse$')
+    else:
+        K.front_adt = '<recursion>'
+        K.front_reverse = False
     K.sites = {}
     K.FAR = K.edge_term = K.item = None
 
@@ -125,11 +144,14 @@ def analyse(F, b, params):
         return bool(t['args']) and strip_payload(pv.of_operand(t['args'][0])) == ('param', param)
 
     # frontier ops
-    K.front_ops = [(bi, callee_name(t).split('::')[-1], t) for bi, t in calls_in(b, lambda t: recv_is(t, front))]
+    K.front_ops = [(bi, callee_name(t).split('::')[-1], t) for bi, t in calls_in(b, lambda t: recv_is(t, front))] if front is not None else []
     takes = [(bi, m, t) for bi, m, t in K.front_ops if m in TAKE_M]
     adds = [(bi, m, t) for bi, m, t in K.front_ops if m in ADD_M]
     K.takes, K.adds = takes, adds
-    if len(takes) != 1:
+    if K.node_param is not None:
+        K.sites['TAKE'] = 0
+        K.take_m = 'param'
+    elif len(takes) != 1:
         K.missing.append('TAKE(%d)' % len(takes))
     else:
         K.sites['TAKE'] = takes[0][0]
@@ -181,7 +203,9 @@ def analyse(F, b, params):
     else:
         K.sites['ITER'] = ctor[2]
         recv = ctor[1]
-        if takes:
+        if K.node_param is not None:
+            K.iter_on_taken = strip_payload(recv) == ('param', K.node_param)
+        elif takes:
             tk = takes[0][2]
             K.iter_on_taken = term_mentions(recv, lambda x: isinstance(x, tuple) and x and x[0] == 'call' and x[1] == callee_name(tk) and x[3] == takes[0][0])
     item_opt = ('call', callee_name(nt), tuple(pv.of_operand(a) for a in nt['args']), nbi)
@@ -267,7 +291,16 @@ def analyse(F, b, params):
         K.result_other_ops = [callee_name(t).split('::')[-1] for bi, t in calls_in(b, lambda t: recv_is(t, result)) if callee_name(t).split('::')[-1] != 'push']
     # ADVANCE
     K.advance_term = None
-    if len(adds) != 1:
+    if K.node_param is not None:
+        rc = calls_in(b, lambda t: t.get('local') and t.get('res') == b['q'])
+        if len(rc) != 1:
+            K.missing.append('ADVANCE(%d recursive descents)' % len(rc))
+        else:
+            K.sites['ADVANCE'] = rc[0][0]
+            K.add_m = 'recurse'
+            K.advance_wrapped = False
+            K.advance_term = strip_payload(pv.of_operand(rc[0][1]['args'][K.node_param - 1]))
+    elif len(adds) != 1:
         K.missing.append('ADVANCE(%d)' % len(adds))
     else:
         K.sites['ADVANCE'] = adds[0][0]
@@ -346,6 +379,40 @@ def analyse(F, b, params):
                 K.teq_true = te
                 K.teq_site = bi
                 K.teq_other = y
+    if K.teq_true is None:
+        # accepted idiom: self.target.as_ref().map_or(false, |t| key == t)  /  is_some_and(|t| ..)
+        from .core import closure_result, deep_unwrap
+        for bi, t in calls_in(b, lambda t: callee_name(t) in ('std::option::Option::map_or', 'std::option::Option::is_some_and')):
+            subj = deep_unwrap(pv.of_operand(t['args'][0]))
+            if not term_mentions(subj, lambda z: z == ('param', 1)):
+                continue
+            if callee_name(t).endswith('map_or') and deep_unwrap(pv.of_operand(t['args'][1])) != ('const', 'false'):
+                continue
+            clo = pv.of_operand(t['args'][-1])
+            X = ('opt-payload',)
+            cr = closure_result(F, clo, [X])
+            cr = deep_unwrap(cr) if cr is not None else None
+            if isinstance(cr, tuple) and cr and cr[0] == 'call' and cr[1] in ('std::cmp::PartialEq::eq',) or (isinstance(cr, tuple) and cr and cr[0] == 'call' and cr[1].endswith('PartialEq<&B>>::eq')):
+                a0, a1 = cr[2][0], cr[2][1]
+                KF = deep_unwrap(KEYFAR)
+                if (a0 == KF and a1 == X) or (a1 == KF and a0 == X):
+                    te, fe = cfg.bool_edges(t['dst']['l'], t['target'])
+                    if te is None:
+                        me = ('call', callee_name(t), tuple(pv.of_operand(a) for a in t['args']), bi)
+                        for sb in sorted(cfg.reach):
+                            st = b['blocks'][sb]['term']
+                            if st['k'] != 'switch':
+                                continue
+                            term = pv.of_operand(st['op'])
+                            alts = list(term[1]) if isinstance(term, tuple) and term and term[0] == 'join' else [term]
+                            if me in alts and all(a == me or a == ('const', 'false') for a in alts):
+                                z = [tg for v, tg in st['targets'] if v == 0]
+                                if z:
+                                    te, fe = (sb, st['otherwise']), (sb, z[0])
+                    if te is not None:
+                        K.teq_true = te
+                        K.teq_site = bi
+                        K.teq_other = subj
     return K
 
 
